@@ -188,3 +188,22 @@ def run_items(ctx, rep, rule):
                            (f"{k}: [exception: {why}]" if why else
                             f"{k}: the Err case of an item read from the repository is handled locally (logged/skipped) instead of propagated: an unreadable or tampered file is silently left out"))
     rep.floor(rule, "loops over RusticResult items", n, 6)
+
+
+LENIENT = re.compile(r"^rustic_core::repofile::snapshotfile::SnapshotFile::iter_all_from_backend$")
+
+
+def run_strict_readers(ctx, rep, rule, roots_rx, what):
+    """operations that must see EVERY stored file (check, prune's used-blob walk) must not obtain their input through a
+    lenient lister that warns and skips unreadable files: no call path from the given roots reaches one"""
+    prog, cg = ctx.prog, ctx.cg
+    roots = [b for b in prog.by_crate["rustic_core"] if re.search(roots_rx, b.path)]
+    rep.require(rule, f"strict-readers/{what}/roots", len(roots) >= 1, where="", what=f"entry points of {what} found ({len(roots)})")
+    if not roots:
+        return
+    seen = cg.reachable(roots)
+    hit = [p for p in seen if LENIENT.search(p)]
+    chain = cg.path_to(seen, hit[0]) if hit else []
+    rep.check(rule, f"strict-readers/{what}", not hit, where=roots[0].loc(),
+              what=f"{what} never reads its snapshots through the warn-and-skip lister (an unreadable snapshot file is an error)" if not hit else
+                   f"{what} obtains snapshots through the lenient lister ({' -> '.join(strip_crate(x) for x in chain[-4:])}): an unreadable / tampered snapshot file is silently left out")
